@@ -143,10 +143,16 @@ func TestC04(t *testing.T) {
 					for i := 0; i <= nsteps; i++ {
 						points = append(points, i)
 					}
-				case k == "cancel_in" || k == "handler_err":
+				case k == "cancel_in" || k == "handler_err" || k == "handler_err_cancel":
 					for i := 1; i <= ntx; i++ {
 						points = append(points, i)
 					}
+				case k == "cancel_log":
+					for i := 1; i <= 3*nsteps+4; i++ {
+						points = append(points, i)
+					}
+				case k == "err_handshake" || k == "err_query":
+					points = []int{0}
 				default:
 					points = []int{1}
 				}
